@@ -11,7 +11,8 @@
     [refs_ok c] (round 3, groups and [requires]): group ids are unique, every group member is an argument,
     every id named by a [requires] rule of an argument or of a group exists -- what debug_asserts.rs checks. *)
 From ClapModel Require Import Base.Bytes Base.Machine Parse.Cmd Parse.Build Parse.Valid Parse.Matcher Parse.Errors Parse.Validator Parse.Parser.
-From ClapModel Require Import Gen.HelpTables Help.UsageModel Help.HelpModel Help.HelpReqs Help.HelpProofs Help.HelpLevel Help.HelpSpecVals Help.HelpDispatch Help.HelpUsage Help.HelpGlobals Help.HelpTemplate Help.HelpHeadings Help.HelpRefsBuild.
+From ClapModel Require Import ParseProofs.Spelling.
+From ClapModel Require Import Gen.HelpTables Help.UsageModel Help.HelpModel Help.HelpReqs Help.HelpProofs Help.HelpLevel Help.HelpSpecVals Help.HelpDispatch Help.HelpUsage Help.HelpGlobals Help.HelpTemplate Help.HelpHeadings Help.HelpRefsBuild Help.HelpFlagGen.
 From RecordUpdate Require Import RecordSet.
 Import RecordSetNotations.
 Open Scope N_scope.
@@ -453,3 +454,59 @@ Theorem C12_render_total_user : forall dw c use_long w,
   render_help dw c use_long w <> None /\ render_usage c <> None.
 Proof. exact render_total_user. Qed.
 Print Assumptions C12_render_total_user.
+
+(** ---- round 3: the generated [-h] / [--help] of a level is a help flag of that level ---- *)
+
+(** [long_help_at] / [short_help_at] derived: the level passes [assert_app], contains the generated help argument
+    ([built_help_arg] = [arg_build help_arg]: the help flag is not disabled there) and no subcommand answers to
+    the token (a subcommand may be NAMED [--help]: the condition is necessary) *)
+Theorem C12_generated_help_is_help_flag : forall lv,
+  assert_app lv = true -> In built_help_arg (c_args lv) ->
+  (possible_subcommand lv tok_help_long false = None -> long_help_at lv true = true)
+  /\ (possible_subcommand lv tok_help_short false = None ->
+      match get_pos lv 1 with Some a => negb (a_negnum a) && negb (a_hyphen a && negb (a_last a)) | None => true end = true ->
+      short_help_at lv false = true).
+Proof. intros lv V Hin. exact (conj (gen_long_help_at lv V Hin) (gen_short_help_at lv V Hin)). Qed.
+Print Assumptions C12_generated_help_is_help_flag.
+
+(** the build puts it there: [x] = the command after the settings / propagation blocks of [_build_self] *)
+Theorem C12_build_has_help : forall c,
+  s_built (c_set c) = false -> is_set s_disable_help_flag (bs_propagate (bs_settings c)) = false ->
+  In built_help_arg (c_args (build_self c)).
+Proof. exact build_self_has_help. Qed.
+Print Assumptions C12_build_has_help.
+
+(** [C12_help_flag_long_level] / [_short_level] without the [long_help_at] / [short_help_at] hypothesis: [--help]
+    resp. [-h] after a chain of subcommand names yields the help of the level at the END of the chain, in long resp.
+    short mode ([assert_app] of that level comes out of [valid c0]) *)
+Theorem C12_help_flag_long_level_gen : forall c0 bin names rest lv,
+  is_set s_no_binary_name c0 = false -> c_bin_name c0 <> None ->
+  valid c0 = true -> help_chain (build_self c0) names = Some lv ->
+  In built_help_arg (c_args lv) -> possible_subcommand lv tok_help_long false = None ->
+  parse_top c0 (bin :: names ++ tok_help_long :: rest) = OErr (help_err lv true)
+  /\ p_level_walk (build_self c0) names = Some lv
+  /\ e_kind (help_err lv true) = EDisplayHelp /\ e_cmd (help_err lv true) = opt_default [] (c_about lv)
+  /\ e_long (help_err lv true) = true.
+Proof. exact help_flag_long_level_gen. Qed.
+Print Assumptions C12_help_flag_long_level_gen.
+
+Theorem C12_help_flag_short_level_gen : forall c0 bin names rest lv,
+  is_set s_no_binary_name c0 = false -> c_bin_name c0 <> None ->
+  valid c0 = true -> help_chain (build_self c0) names = Some lv ->
+  In built_help_arg (c_args lv) -> possible_subcommand lv tok_help_short false = None ->
+  match get_pos lv 1 with Some a => negb (a_negnum a) && negb (a_hyphen a && negb (a_last a)) | None => true end = true ->
+  parse_top c0 (bin :: names ++ tok_help_short :: rest) = OErr (help_err lv false)
+  /\ p_level_walk (build_self c0) names = Some lv
+  /\ e_kind (help_err lv false) = EDisplayHelp /\ e_cmd (help_err lv false) = opt_default [] (c_about lv)
+  /\ e_long (help_err lv false) = false.
+Proof. exact help_flag_short_level_gen. Qed.
+Print Assumptions C12_help_flag_short_level_gen.
+
+(** non-vacuity: the three-level example of [C12_help_chain_satisfiable] satisfies the new hypotheses *)
+Theorem C12_help_flag_gen_satisfiable :
+  exists lv, help_chain (build_self hd_root) hd_names = Some lv
+    /\ In built_help_arg (c_args lv)
+    /\ possible_subcommand lv tok_help_long false = None /\ possible_subcommand lv tok_help_short false = None
+    /\ match get_pos lv 1 with Some a => negb (a_negnum a) && negb (a_hyphen a && negb (a_last a)) | None => true end = true.
+Proof. exact hd_gen_hyps. Qed.
+Print Assumptions C12_help_flag_gen_satisfiable.
